@@ -861,7 +861,10 @@ class BuiltinMixin:
     def m_str_upper(self, obj, args, kwargs, line):
         if obj.s is not None:
             return StrV(s=obj.s.upper())
-        return StrV(t=z3.Function("str_upper", StrSort, StrSort)(obj.t))
+        fn = z3.Function("str_upper", StrSort, StrSort)
+        result = fn(obj.t)
+        self.ctx.assume(fn(result) == result)   # idempotent
+        return StrV(t=result)
 
     def m_str_lower(self, obj, args, kwargs, line):
         if obj.s is not None:
